@@ -99,7 +99,7 @@ def build_drivers(flags, ct=True, std=True, tag="", std_ct=False):
 
 def execute(tier, bins, impl, table, ct=True, tag=""):
     d = vlib.workdir("traces")
-    nr = {"quick": (3000, 2000, 1200, 1500, 300), "thorough": (60000, 40000, 8000, 12000, 3000)}[tier]
+    nr = {"quick": (3000, 2000, 1200, 1500, 300), "thorough": (60000, 40000, 4000, 6000, 3000)}[tier]
     seed = str(vlib.seed())
     b = bins["float_%s%s" % (impl, tag)]
     tasks = []
@@ -182,7 +182,7 @@ def measure(paths, devlines):
                 j = line.find('"md":"')
                 kk = "%s/%s" % (line[7:line.index('"', 7)], line[j + 6:j + 8])
                 cnt[kk] = cnt.get(kk, 0) + 1
-                if '"r":[' not in line:
+                if '"r":[' not in line or '"nc"' in line or '"crash"' in line:
                     continue
                 ev = json.loads(line)
                 if not isinstance(ev.get("c"), list) or len(ev["c"]) > 4:
